@@ -25,6 +25,11 @@
         the timed machine with the limits of the phases before the tunnel (0 = no limit); steps as for
         `trun`, plus le (a limit expires)
         → the `ok …` line of `trun` followed by deadline=<n|-> aborted= cut=   |   stuck <index>
+    arun <cfg> <legs> <always|skip> <steps>   execute a schedule on the machine with copy errors
+        steps = as for `run`, plus au:<c|o> ad:<c|o> (the Read of the copier of up / down fails with an error
+                `isClosedConnError` recognises / another one) and wu wd (its Write fails: the destination is gone)
+        → ok phase= up= down= eofU= eofD= finU= finD= shownU= shownD= failedU= failedD= grace= closed= expired=
+             availU= availD=   |   stuck <index>
 -/
 import FwdVerif.Model.C03
 
@@ -159,7 +164,47 @@ def lrunIdx (c : Cfg) (τ : Timing) (lim : Limits) (pol : DeadlinePolicy) :
     | none => .error i
     | some l' => lrunIdx c τ lim pol l' rest (i + 1)
 
+def decodeErrKind : String → Option ErrKind
+  | "c" => some .connClosed
+  | "o" => some .other
+  | _ => none
+
+def decodeAStep (s : String) : Option AStep :=
+  match s.splitOn ":" with
+  | ["au", k] => (decodeErrKind k).map (.abort .up)
+  | ["ad", k] => (decodeErrKind k).map (.abort .down)
+  | ["wu"] => some (.writeFail .up)
+  | ["wd"] => some (.writeFail .down)
+  | _ => (decodeStep s).map .s
+
+def decodeASteps (s : String) : Option (List AStep) := (splitList2 s).mapM decodeAStep
+
+def decodeErrPolicy : String → Option ErrPolicy
+  | "always" => some .always
+  | "skip" => some .skipOnConnClosed
+  | _ => none
+
+def arunIdx (c : Cfg) (L : Legs) (pol : ErrPolicy) : AState → List AStep → Nat → Except Nat AState
+  | a, [], _ => .ok a
+  | a, st :: rest, i =>
+    match astep c L pol a st with
+    | none => .error i
+    | some a' => arunIdx c L pol a' rest (i + 1)
+
 def handle : List String → String
+  | ["arun", cfg, legs, pol, steps] =>
+    match decodeCfg cfg, decodeLegs legs, decodeErrPolicy pol, decodeASteps steps with
+    | some c, some L, some pol, some sts =>
+      match arunIdx c L pol ainit sts 0 with
+      | .ok a =>
+        let s := a.h.s
+        s!"ok phase={phaseName s.phase} up={hexOfBytes s.up.delivered} down={hexOfBytes s.down.delivered} " ++
+        s!"eofU={ofBool s.up.eof} eofD={ofBool s.down.eof} finU={ofBool s.up.fin} finD={ofBool s.down.fin} " ++
+        s!"shownU={ofBool a.h.shownU} shownD={ofBool a.h.shownD} failedU={ofBool a.failedU} " ++
+        s!"failedD={ofBool a.failedD} grace={ofBool a.grace} closed={ofBool a.closed} " ++
+        s!"expired={ofBool a.expired} availU={s.up.avail} availD={s.down.avail}"
+      | .error i => s!"stuck {i}"
+    | _, _, _, _ => "bad-op"
   | ["hrun", cfg, legs, pol, steps] =>
     match decodeCfg cfg, decodeLegs legs, decodeCwPolicy pol, decodeSteps steps with
     | some c, some L, some pol, some sts =>
